@@ -135,6 +135,9 @@ type Record struct {
 	Name     string
 	ReadOnly bool   // structs only
 	OpCode   uint32 // 0 = none
+	// Imported: the record (top-level only) is defined in the second, imported file; it may refer to
+	// primitives and to other imported definitions only.
+	Imported bool
 	Fields   []Field
 	Branches []Branch // unions only
 }
@@ -229,7 +232,7 @@ func (f File) EnumByName(name string) (Enum, bool) {
 func Render(f File) string {
 	var b strings.Builder
 	main, dep := f, File{}
-	main.Enums = nil
+	main.Enums, main.Records = nil, nil
 	for _, e := range f.Enums {
 		if e.Imported {
 			dep.Enums = append(dep.Enums, e)
@@ -237,7 +240,14 @@ func Render(f File) string {
 			main.Enums = append(main.Enums, e)
 		}
 	}
-	if len(dep.Enums) > 0 {
+	for _, r := range f.Records {
+		if r.Imported {
+			dep.Records = append(dep.Records, r)
+		} else {
+			main.Records = append(main.Records, r)
+		}
+	}
+	if len(dep.Enums)+len(dep.Records) > 0 {
 		b.WriteString("import \"drvdep/dep.bop\"\n\n")
 		b.WriteString(renderOne(main))
 		b.WriteString(DepMarker + "\n")
